@@ -148,7 +148,11 @@ PROXY_ALL = ["QhttpBridge.Proxy.Base"] + ["QhttpBridge.Proxy." + n for n in ("On
 # scripts; the `_run` theorems carry the hypothesis `… ∉ QhttpGen.Parser.untranslated`), so the module is never skipped.
 PARSER_ALL = ["QhttpBridge.Parser"]
 
+FS_ALL = ["QhttpBridge.Fs.AbsolutePath", "QhttpBridge.Fs.Process"]
+
 BRIDGE_NEEDS = {
+    "QhttpBridge.Fs.AbsolutePath": ["FilesystemHandlerPrivate::absolutePath"],
+    "QhttpBridge.Fs.Process": ["FilesystemHandler::process", "FilesystemHandlerPrivate::absolutePath"],
     "QhttpBridge.Sock.SetStatusCode": ["Socket::setStatusCode"], "QhttpBridge.Sock.SetHeader": ["Socket::setHeader"],
     "QhttpBridge.Sock.SetHeaders": ["Socket::setHeaders"], "QhttpBridge.Sock.WriteHeaders": ["Socket::writeHeaders"],
     "QhttpBridge.Sock.WriteData": ["Socket::writeData", "Socket::writeHeaders"], "QhttpBridge.Sock.Close": ["Socket::close"],
@@ -184,6 +188,7 @@ BRIDGES = {
     "C12": PROXY_ALL + PARSER_ALL,
     "C13": PROXY_ALL + PARSER_ALL,
     "C14": ["QhttpBridge.Copier"],
-    "C08": ["QhttpBridge.Copier"] + RANGE_ALL,
+    "C08": ["QhttpBridge.Copier"] + RANGE_ALL + FS_ALL,
+    "C07": FS_ALL,
 }
 ALL_BRIDGE_MODULES = sorted({m for v in BRIDGES.values() for m in v})
